@@ -309,11 +309,22 @@ CALLS = [
     ('f(1)', (1,), {}), ('f(1,1)', (1, 1), {}), ('f(1,b=1)', (1,), {'b': 1}), ('f(a=1)', (), {'a': 1}), ('f(a=1,b=1)', (), {'a': 1, 'b': 1}),
     ('f(b=1,a=1)', (), {'b': 1, 'a': 1}), ('f(2)', (2,), {}), ('f([1])', ([1],), {}), ("f({'x':1})", ({'x': 1},), {}), ("f('boom')", ('boom',), {}),
     ('f(1,2)', (1, 2), {}),
+    # two keywords with DIFFERENT values in either spelling order: (a=1,b=2) and (b=2,a=1) are one combination, (b=1,a=2) is another
+    ('f(a=1,b=2)', (), {'a': 1, 'b': 2}), ('f(b=2,a=1)', (), {'b': 2, 'a': 1}), ('f(b=1,a=2)', (), {'b': 1, 'a': 2}), ('f(a=2,b=1)', (), {'a': 2, 'b': 1}),
+    ("f({'x':1,'y':2})", ({'x': 1, 'y': 2},), {}), ("f({'y':1,'x':2})", ({'y': 1, 'x': 2},), {}), ("f({'y':2,'x':1})", ({'y': 2, 'x': 1},), {}),
 ]
 
 
+def _canon(v):
+    if isinstance(v, dict):
+        return ['dict', sorted((k, _canon(x)) for k, x in v.items())]      # equal dicts are one argument value whatever their insertion order
+    if isinstance(v, (list, tuple)):
+        return [type(v).__name__, [_canon(x) for x in v]]
+    return repr(v)
+
+
 def _mkey(args, kw):
-    return json.dumps([repr(args), sorted((k, repr(v)) for k, v in kw.items())])
+    return json.dumps([[_canon(a) for a in args], sorted((k, _canon(v)) for k, v in kw.items())])
 
 
 class CacheBfs(BfsSuite):
@@ -340,7 +351,7 @@ class CacheBfs(BfsSuite):
             count[0] += 1
             if a == 'boom':
                 raise KeyError('boom')
-            return ('r', count[0])
+            return ('r', _canon(a), b, count[0])
         g = cache(f)
         model = {}
         for step, op in enumerate(history):
@@ -370,7 +381,8 @@ class CacheBfs(BfsSuite):
                 continue
             hit = key in model
             if not hit:
-                model[key] = ('r', before + 1)
+                bound = dict(zip(('a', 'b'), args), **kw)
+                model[key] = ('r', _canon(bound['a']), bound.get('b', 1), before + 1)
             if last:
                 out.call()
                 if exc is not None:
